@@ -262,6 +262,13 @@ static Verdict judge(const Case& c, const Out& o) {
         mp::PLPoints sub; sub.x_ = {pp, qq}; sub.y_ = {(double)truth(c, pp), pl.y_[hi]};
         LD am; LD e = seg_max(c, sub, pp, qq, am);
         attributable = e <= (LD)c.tol * SLACK;
+        if (!attributable) {
+          // ... or the tolerance cannot be met by a single piece over [p, p+1e-4] at all: the step control must have asked for a
+          // breakpoint nearer than 1e-4 to p, which AddPoint dropped, and everything up to q was built on that dropped point
+          mp::PLPoints first; first.x_ = {pl.x_[hi - 1], pp}; first.y_ = {pl.y_[hi - 1], (double)truth(c, pp)};
+          LD am2; LD e2 = seg_max(c, first, pl.x_[hi - 1], pp, am2);
+          attributable = e2 > (LD)c.tol * SLACK;
+        }
       }
     }
     v.cls = attributable ? "error-bound@resolution" : "error-bound"; v.fail = w.str(); return v;
